@@ -52,23 +52,14 @@ pub(crate) fn expressions_as_expression(expressions: Vec<Expression>) -> Express
         return Expression::nil();
     }
 
-    if expressions.len() == 1 {
-        BinaryExpression::new(
-            BinaryOperator::And,
-            expressions.into_iter().next().unwrap(),
-            Expression::nil(),
-        )
-        .into()
-    } else {
-        expressions
-            .into_iter()
-            .rfold(Expression::nil(), |current, value| {
-                BinaryExpression::new(
-                    BinaryOperator::And,
-                    BinaryExpression::new(BinaryOperator::Or, value, true),
-                    current,
-                )
-                .into()
-            })
-    }
+    expressions
+        .into_iter()
+        .rfold(Expression::nil(), |current, value| {
+            BinaryExpression::new(
+                BinaryOperator::And,
+                BinaryExpression::new(BinaryOperator::Or, value, true),
+                current,
+            )
+            .into()
+        })
 }
